@@ -23,6 +23,23 @@ static int builtin_index(const char *p, size_t *namelen)
     return -1;
 }
 static int ref_expand(const char *s, ref_t *r);
+/* the word grammar the built-ins split their argument with (as in h_tokens.c / DESIGN A.8): whitespace-separated,
+ * a word that opens with a quote runs to the matching quote, a backslash makes a following quote literal */
+static int ref_words(const char *s, char w[3][64])
+{
+    size_t i = 0; int n = 0;
+    while (s[i] && isspace((unsigned char) s[i])) i++;
+    while (s[i]) {
+        char q = 0; size_t o = 0;
+        if (s[i] == '"' || s[i] == '\'') q = s[i++];
+        while (s[i] && (q ? s[i] != q : !isspace((unsigned char) s[i]))) { if (s[i] == '\\' && (s[i + 1] == '"' || s[i + 1] == '\'')) i++; if (n < 3 && o < 63) w[n][o++] = s[i]; i++; }
+        if (s[i] == '"' || s[i] == '\'') i++;
+        if (n < 3) w[n][o] = 0;
+        n++;
+        while (s[i] && isspace((unsigned char) s[i])) i++;
+    }
+    return n;
+}
 static int ref_builtin(int k, const char *arg, ref_t *r)
 {
     ref_t *a = calloc(1, sizeof *a); int ok = ref_expand(arg, a);
@@ -32,8 +49,10 @@ static int ref_builtin(int k, const char *arg, ref_t *r)
     switch (k) {
     case 0: r_put(r, "verif-1.0", 9); break;
     case 1: r_put(r, "1.0", 3); break;
-    case 3: { /* random: one word -> that word */ char w[64]; if (sscanf(a->out, "%60s", w) == 1) r_put(r, w, strlen(w)); break; }
-    case 4: { char k1[64] = "", d[64] = ""; int n = sscanf(a->out, "%60s %60s", k1, d); const char *v = n >= 1 ? m_store_get(k1) : NULL; if (v) r_put(r, v, strlen(v)); else if (n == 2) r_put(r, d, strlen(d)); break; }
+    case 3: { /* random: one word -> that word; several words -> outside the stateless oracle */ char w[3][64]; int n = ref_words(a->out, w); if (n == 1) r_put(r, w[0], strlen(w[0])); else if (n > 1) r->foreign_percent = 1; break; }
+    case 4: { char w[3][64]; int n = ref_words(a->out, w);
+              if (n >= 1 && n <= 2) { const char *v = m_store_get(w[0]); if (v) r_put(r, v, strlen(v)); else if (n == 2) r_put(r, w[1], strlen(w[1])); }
+              break; }                     /* more than two words: syntax error, nothing is substituted */
     default: r->foreign_percent = 1; break;       /* exec/put/dirscan are not in the stateless alphabet */
     }
     free(a);
